@@ -11,29 +11,88 @@ TB = ("Trusted: Coq 8.16.1 kernel (vm_compute; coqchk in the thorough tier); no 
       "the grader / LXR / factom libraries and the cryptography are oracles. ")
 
 CLAIMS = {
- "C03": ("Coq theorems over all chains (induction over the block list, unbounded Z with the code's uint64/int64 checks): no reachable balance is "
-         "negative (proved from the code's own checks, not from the CHECK constraint), a batch is applied completely or leaves every balance untouched, "
-         "every debit is covered at the moment it is made; the model of SyncBlock is tied to the real node by replaying generated chains of every era "
-         "through the unmodified daemon and comparing balances and batch status block by block; property oracle (no negative cell) on the node's dumps.",
-         "section 6 C03", ""),
- "C05": ("Coq theorems over all byte strings / entries with signature verification as a Section oracle: an accepted entry carries exactly one RCD whose "
-         "hash is the input address, of a type enabled at that height, a signature verified over exactly salt||chain||content (message composition "
-         "injective), salt within +-12h; every structural failure class is rejected; for RCD-1 one verified triple determines the entry. Model tied to "
-         "fat2.NewTransactionBatch by differential runs on real signed entries and their mutations (every single-bit flip in the thorough tier).",
-         "section 6 C05", "Known finding (recorded, not repaired): RCD-e signatures are malleable in byte 64 (Refuted/C05.v). "),
- "C07": ("Coq theorems over all int64 amounts and uint64 rates: Convert = floor(in*src/dst) with min/max against averages from PIP-10, error exactly "
-         "on zero rate/average or int64 overflow, value never increases; chain level: a batch with conversions is only put into holding by its own block "
-         "and executed by the next block that has rates, at that block's rates (model of SyncBlock tied to the real node on chains with graded / ungraded patterns).",
+ "C01": ("Coq theorems: the proportional payout with dust (staking payouts, PEG bank yields) is a function of the SET of requests — every enumeration of Go's map gives "
+         "each txid the same payout, the dust recipient is the unique maximum under (amount, txid order) — for all request sets; table obligations regenerated from the "
+         "source: no iteration over a map and no sort in the code reachable from block application other than the reviewed ones. The model of a block is a function "
+         "of the chain (no clock, no order input) and is tied to the node on every table of the ledger; N independent OS processes replay chains with exact ties and "
+         "their dumps are compared.", "section 6 C01", ""),
+ "C02": ("Coq theorem over all chains and all sequences of events of the sync loop (failed attempts rolled back, SIGKILL before COMMIT returns or right after, restarts, "
+         "API requests): the committed database is always the uninterrupted replay of a prefix of the chain and the rest is still to be applied; each block records its "
+         "height exactly once; table obligations from the source: every write of a block goes through its sql.Tx, reads that bypass it are the reviewed ones. Tie: the real "
+         "daemon is killed at statement granularity (every distinct call site, before/after COMMIT), re-opened by a fresh process, compared with the reference state of "
+         "the recorded height, resumed and compared again.", "section 6 C02",
+         "SQLite's atomic commit / journal and the filesystem are trusted (partial: no executable model can exhibit torn writes). "),
+ "C03": ("Coq theorems over all chains (induction over the block list, unbounded Z with the code's uint64/int64 checks): no reachable balance is negative (proved from the "
+         "code's own checks, not from the CHECK constraint), a batch is applied completely or leaves every balance untouched, every debit is covered at the moment it is "
+         "made; the model of SyncBlock is tied to the real node by replaying generated chains of every era through the unmodified daemon and comparing balances and batch "
+         "status block by block; property oracle (no negative cell) on the node's dumps.", "section 6 C03", ""),
+ "C04": ("Coq theorems for every state, batch and asset: AddToBalance / SubFromBalance change the supply by exactly their amount and nothing else does; recording a batch "
+         "changes each asset's supply by exactly the sum of its transactions' events (transfers: minus outputs to the burn address; conversions: -input, +floor(in*src/dst); "
+         "bank-era PEG requests: input only); a transfer whose outputs add up to its input creates and destroys nothing; rewards and burns credit exactly the decided "
+         "amounts to the named addresses. Tie: balances (whose column sums are the supplies) compared with the node block by block on chains of every era.", "section 6 C04",
+         "A single block-level supply equation over all enumerated events is not stated as one theorem; it is covered piecewise and by the correspondence. "),
+ "C05": ("Coq theorems over all byte strings / entries with signature verification as a Section oracle: an accepted entry carries exactly one RCD whose hash is the input "
+         "address, of a type enabled at that height, a signature verified over exactly salt||chain||content (message composition injective), salt within +-12h; every "
+         "structural failure class is rejected; for RCD-1 one verified triple determines the entry. Model tied to fat2.NewTransactionBatch by differential runs on real "
+         "signed entries and their mutations (every single-bit flip in the thorough tier).", "section 6 C05",
+         "Known finding (recorded, not repaired): RCD-e signatures are malleable in byte 64 (Refuted/C05.v). "),
+ "C06": ("Coq theorem over all blocks: relation rows are never deleted, so an entry hash that counts as executed does so in every later state; both the arrival path and the "
+         "holding path consult them (an executed, pending or rejected entry written again has no effect: C08/C17 lemmas). Tie: chains repeating entries in the same block, "
+         "later blocks, across blocks without rates, after execution and after each reject code, compared with the node on balances, status, holding and relation rows.",
+         "section 6 C06", "'considered exactly once' for held batches (the window partition argument) rests on the correspondence, not on a theorem. "),
+ "C07": ("Coq theorems over all int64 amounts and uint64 rates: Convert = floor(in*src/dst) with min/max against averages from PIP-10, error exactly on zero rate/average or "
+         "int64 overflow, value never increases; chain level: a batch with conversions is only put into holding by its own block and executed by the next block that has "
+         "rates, at that block's rates (model of SyncBlock tied to the real node on chains with graded / ungraded patterns, including unrated snapshot heights).",
          "section 6 C07", ""),
- "C19": ("Coq theorem over all fork tables and all session histories: the final start-up refuses iff a block at or above a fork height was synced by "
-         "an untracked or too old build, or some block by a newer build (under stated hypotheses, each shown necessary by a refuted witness); model tied "
-         "to the real CheckHardForks / InsertSynced on prepared sqlite databases (exhaustive small histories in the thorough tier).",
-         "section 6 C19", "Known finding (recorded): an untracked build run after a tracked one leaves version gaps that are accepted. "),
- "C20": ("Coq theorems over all byte strings: an accepted batch is canonical (exactly the expected keys once each, known tickers, one of "
-         "transfers/conversion, amounts within int64, one input address; tolerated variations listed), by the length-accounting argument; "
-         "FactoidToFactoshi returns exactly the denoted number of base units or rejects, and accepts everything representable; both models tied to the "
-         "Go parsers by differential runs (structured + malformed streams; exhaustive short strings in the thorough tier).",
-         "section 6 C20", "encode/decode round trip is checked by correspondence only (parser round-trip lemma not proved). "),
+ "C08": ("Partial proof: Coq theorems that the content classes a third party controls on the transaction chain are harmless (undecodable / invalid entries, entries repeated "
+         "after execution or while pending or rejected, whole blocks of garbage are skipped and change nothing); the full totality statement is kept in Props/C08.v as not "
+         "proved. Tie: adversarial chains (garbage on all three chains, truncated and length-compensated JSON, repeated hashes, 0..n ExtIDs) replayed by the real node; "
+         "oracle: every block applies.", "section 6 C08", "Known finding: bank-era mixed batches wedge the block (closed era). "),
+ "C09": ("Coq theorem over all chains with increasing heights and all sets of restart heights: dropping the in-memory cache anywhere never changes the replayed database; "
+         "the averages a block uses are a function of the committed database alone. Tie: chain correspondence on chains with unrated blocks inside the averaging window, "
+         "and the real daemon restarted at every height of such a chain vs one continuous run.", "section 6 C09", ""),
+ "C10": ("Coq theorem over all chains and all fault sequences whose error propagates: the database reached is the fault-free replay; table obligation from the source: the "
+         "sites where an error is discarded, only logged or replaced are exactly the reviewed ones. Tie: every distinct SQL call site and factomd request of a chain fails "
+         "once on the real daemon, which must then reach the fault-free ledger.", "section 6 C10",
+         "Known finding (recorded): errors in and around NullifyBurnAddress are dropped (Refuted/C10.v). A failed COMMIT ends the process (log.Fatal): treated as crash + restart. "),
+ "C11": ("Coq theorems for every verdict and every factoid block: the reward step credits each winner's Payout() in PEG at its payout address and changes no other cell; each "
+         "valid burn credits exactly its input amount of pFCT to its input address; the grader version by height is the protocol's table for every configuration in mainnet "
+         "order (ladders regenerated from the source). Tie: the real grader libraries' verdicts are inputs of the model; balances, coinbase and burn history, pn_winners and "
+         "pn_grade compared with the node.", "section 6 C11",
+         "The graders are oracles (assumed total). 'SPRs not signed by a top-100 holder key pay nothing' is covered by the top-100 filter in the model and the correspondence; the staker id is not bound to the signing key (design section 6 C11). "),
+ "C12": ("Coq theorems over all blocks: rates once recorded for a height never change and a block records rates for no other height than its own. Tie: chains playing every "
+         "OPR/SPR combination (only OPR, only SPR, both in band, on the edge, outside) in the three band regimes with Coq's binary64 arithmetic, compared on pn_rate and "
+         "batch status; oracle on the node's dumps: a rate row never changes or disappears.", "section 6 C12",
+         "The numeric sandwich of the binary64 band predicate is not proved (the predicate is the code's computation, checked by correspondence). Known finding in the design: the nil error returned on a band failure before 2.0.2 (closed era) is mirrored by the model. "),
+ "C13": ("Coq theorems for every state, pair of assets, height and rate/average pattern: the decision rule for a conversion (insufficient funds, zero rate, one-way pFCT, one-way "
+         "small assets / PEG, unconvertible, let through), PEG conversions refused from 2.0 on, a conversion that is let through is recorded and a refused one leaves every "
+         "balance untouched; the one-way sets are regenerated from the source. Tie: a slice of all pairs x {act-1, act, act+1} on the real node.", "section 6 C13", ""),
+ "C14": ("Coq theorems for all stake sets: the total paid never exceeds the cap, equals it to the last unit when the stakes reach it, below it everybody receives his stake; the "
+         "stake depends on the two snapshots only through the per-asset minimum; an address absent from the previous snapshot has no stake; order independence. Tie: "
+         "ConversionSupplySet.Payouts differential and chains over three snapshot periods compared on balances, snapshots and staking rows.", "section 6 C14", ""),
+ "C15": ("Coq theorems by computation over the tables regenerated from the source on every run: developer payouts total exactly 2000 PEG x 144 (2000 before 2.0.2), every amount "
+         "is the binary64 product of its percentage, percentages sum to 100, cadence = activation and multiple of 144, the one-time adjustments have distinct heights none of "
+         "which is a payout height, the minted supply is well-formed. Tie: chains crossing the activations compared on balances and coinbase rows.", "section 6 C15",
+         "Known findings in the design (zeroing rows refused / txid collision) are mirrored by the model. "),
+ "C16": ("Coq theorems for all request sets: the PEG created from one bank never exceeds it and exhausts it when requests reach it, shares are floor(request*bank/total), yield "
+         "plus refund never exceeds the input's value, order independence. Tie: Payouts and Refund differentials; bank-era chains compared on balances, pn_bank rows, yields "
+         "and refunds.", "section 6 C16", "Known finding: mixed bank-era batches (closed era). "),
+ "C17": ("Coq theorems: a rejected batch gets exactly its negative code and moves no balance; effects only with a complete execution; paging by LIMIT/OFFSET over a fixed order "
+         "returns every action exactly once. Tie: history, lookup, status, holding and relation rows compared with the node; executable oracle 'replaying the recorded "
+         "history reproduces every balance' on the node's dumps.", "section 6 C17",
+         "The API handlers themselves are not modelled (paging is proved for the list-level query shape). "),
+ "C18": ("Coq theorem: API requests, as transitions that read the committed database and may rebuild the average cache, interleaved anywhere with block application, never change "
+         "the database computed; table obligations from the source: no statement reachable from a handler writes, all run on the pool, the shared fields are the reviewed ones "
+         "and every conflicting pair of accesses holds a common mutex or uses sync/atomic. Tie: the real API server hammered from 8 goroutines during sync; thorough: under the race detector.",
+         "section 6 C18", "Partial: goroutine interleavings at memory-access granularity are not modelled; the race detector run is supporting evidence. "),
+ "C19": ("Coq theorem over all fork tables and all session histories: the final start-up refuses iff a block at or above a fork height was synced by an untracked or too old "
+         "build, or some block by a newer build (under stated hypotheses, each shown necessary by a refuted witness); model tied to the real CheckHardForks / InsertSynced on "
+         "prepared sqlite databases (exhaustive small histories in the thorough tier).", "section 6 C19",
+         "Known finding (recorded): an untracked build run after a tracked one leaves version gaps that are accepted. "),
+ "C20": ("Coq theorems over all byte strings: an accepted batch is canonical (exactly the expected keys once each, known tickers, one of transfers/conversion, amounts within "
+         "int64, one input address; tolerated variations listed), by the length-accounting argument; FactoidToFactoshi returns exactly the denoted number of base units or "
+         "rejects, and accepts everything representable; both models tied to the Go parsers by differential runs (structured + malformed streams; exhaustive short strings "
+         "in the thorough tier).", "section 6 C20", "encode/decode round trip is checked by correspondence only (parser round-trip lemma not proved). "),
 }
 
 
